@@ -150,8 +150,11 @@ def run(ctx):
             ks[0] = 0
             ks[-1] = 0
         xs = [k * 2.0 ** -53 for k in ks]
-        rr = dict(s["req"], op="rng", k=ks + [rng.getrandbits(53) for _ in range(4)]); del rr["x"]
-        rreqs.append(rr); rreqs.append(dict(s["req"], x=[f2b(x) for x in xs])); rinfo.append((s, dim))
+        base_req = dict(s["req"])
+        if len(rreqs) % 6 == 4:
+            base_req["tol"] = f2b(0.0)      # error paths (a point rejected by the stability test) draw the same numbers, once
+        rr = dict(base_req, op="rng", k=ks + [rng.getrandbits(53) for _ in range(4)]); del rr["x"]
+        rreqs.append(rr); rreqs.append(dict(base_req, x=[f2b(x) for x in xs])); rinfo.append((s, dim))
     rres = run_harness(rreqs)
     for i, (s, dim) in enumerate(rinfo):
         a, b = rres[2 * i], rres[2 * i + 1]
